@@ -10,35 +10,35 @@ G = "engine G (gridmc): bounded-exhaustive enumeration of input grids and of sin
 
 CHECKS = {
  "C01": dict(engine="seqmc", cat="model_checking", ref="5 (C01), 3.2",
-   text="Every operation sequence over the SC-types (63 letters incl. all seven rebuild paths), SC-zero, SC-edge (64-bit limits), SC-twin (ids of different formats sharing their bytes), SC-wide (four ids) and SC-bulk (macro letters: 8 / 70 orders at once, 36 cancels, 40 amendments) alphabets up to the reported depth is executed on the real level; after every transition the aggregates must equal the sums over iter_orders(), snapshot fields and total_quantity must agree. One alphabet is explored a second time under the clock seam (the harness answers clock_gettime: a virtual clock jumping 1.5 s at every reading), so that time-driven behaviour is part of every history. Exhaustive within the bound, which is what a property over all histories needs.",
+   text="Every operation sequence over the SC-types (63 letters incl. all seven rebuild paths), SC-zero, SC-edge (64-bit limits), SC-twin (ids of different formats sharing their bytes), SC-wide (four ids) and SC-bulk (macro letters: 8 / 70 orders at once, 36 cancels, 40 amendments) alphabets up to the reported depth is executed on the real level; after every transition the aggregates must equal the sums over iter_orders(), snapshot fields and total_quantity must agree. One alphabet is explored a second time under the clock seam (the harness answers clock_gettime: a virtual clock jumping 1.5 s at every reading), so that time-driven behaviour is part of every history. Exhaustive within the bound, which is what a property over all histories needs. One alphabet is also explored with the taker carrying the id of resting order #1 (the taker id is only a label).",
    note="bounded depth / 2-3 ids / listed templates; 128-bit state hashes; listing seam owns map iteration order",
    tech="explicit-state BFS on the implementation (history replay), aggregate-vs-listing invariant on every transition"),
  "C02": dict(engine="seqmc", cat="model_checking", ref="5 (C02), 3.2",
-   text="Every match transition reachable in SC-types (+ an order priced off-level), SC-order, SC-zero and SC-edge is checked for executed+remaining=requested, completion flag, per-transaction fields incl. the generator's next unused id, per-maker conservation (total before = fills + total after, hidden discarded only by a manual reserve) and the filled-id list (pure predicates from the statement - no queue discipline is pinned); plus the MatchResult builder grid (every sequence of <= 4 transactions, quantities in {0,1,2,3,MAX}, on MatchResult::new(id, q)). One alphabet is explored a second time under the clock seam (the harness answers clock_gettime: a virtual clock jumping 1.5 s at every reading), so that time-driven behaviour is part of every history.",
+   text="Every match transition reachable in SC-types (+ an order priced off-level), SC-order, SC-zero and SC-edge is checked for executed+remaining=requested, completion flag, per-transaction fields incl. the generator's next unused id, per-maker conservation (total before = fills + total after, hidden discarded only by a manual reserve) and the filled-id list (pure predicates from the statement - no queue discipline is pinned); plus the MatchResult builder grid (every sequence of <= 4 transactions, quantities in {0,1,2,3,MAX}, on MatchResult::new(id, q)). One alphabet is explored a second time under the clock seam (the harness answers clock_gettime: a virtual clock jumping 1.5 s at every reading), so that time-driven behaviour is part of every history. One alphabet is also explored with the taker carrying the id of resting order #1 (the taker id is only a label). Generator lifetimes: generators resumed around every power of ten, at the 32 / 53 / 64-bit limits and at counters 10^9, 10^10, 2^32, 10^19 apart each serve one match; all transaction ids must be distinct and those of their counter values. The builder grid also appends transactions carrying an unrelated taker id and the other-format twin of the result's id.",
    note="as C01; lifetime bound follows by induction over the explored transitions",
    tech="explicit-state BFS on the implementation with accounting predicates on every match transition + exhaustive builder grid"),
  "C04": dict(engine="seqmc", cat="model_checking", ref="5 (C04), 3.1",
-   text="All histories of SC-order (3 ids, 26 letters), a two-id all-types alphabet, SC-zero (orders that display nothing), SC-wide (four ids) and SC-bulk (macro letters reaching 70 resting orders / 40 stale tickets) up to the reported depth; every result, the resting set and a draining match from every state are compared with the ideal priority model and with the known-deviation variants (KF1 tail re-queue, KF2 stale ticket). One alphabet is explored a second time under the clock seam (the harness answers clock_gettime: a virtual clock jumping 1.5 s at every reading), so that time-driven behaviour is part of every history. Behaviour explained only by an open known finding prints KNOWN-FINDING; behaviour matching no variant is a VIOLATION.",
+   text="All histories of SC-order (3 ids, 26 letters), a two-id all-types alphabet, SC-zero (orders that display nothing), SC-wide (four ids) and SC-bulk (macro letters reaching 70 resting orders / 40 stale tickets) up to the reported depth; every result, the resting set and a draining match from every state are compared with the ideal priority model and with the known-deviation variants (KF1 tail re-queue, KF2 stale ticket). One alphabet is explored a second time under the clock seam (the harness answers clock_gettime: a virtual clock jumping 1.5 s at every reading), so that time-driven behaviour is part of every history. Behaviour explained only by an open known finding prints KNOWN-FINDING; behaviour matching no variant is a VIOLATION. One alphabet is also explored with the taker carrying the id of resting order #1 (the taker id is only a label). Long and churn sweeps (single calls visiting 7*10^4 .. 1.2*10^6 makers; a level amended 70 000 times in front of live orders) are executed directly and checked with this property's predicates. SC-reuse (two ids that come and go: add / cancel / match / re-add) is explored to depth 8 (thorough 12), SC-churn holds macro letters of 1100 / 4200 amendments.",
    note="ideal model written from the statement (a maker that cannot give anything keeps its place); the iceberg tranche size is adopted from the implementation within the statement's bounds; known findings listed in KNOWN_FINDINGS.txt",
    tech="explicit-state BFS on the implementation vs ideal reference model with known-deviation variants"),
  "C06": dict(engine="seqmc", cat="model_checking", ref="5 (C06)",
-   text="Every match letter in every state reachable in SC-zero (zero displays, zero replenish amounts, fully hidden reserve, amend to 0), SC-types, SC-wide and SC-bulk (70-order books, long runs of stale tickets), plus a draining match from every state, must return within a step budget counted by the hook, leave no displayed quantity if something remains, and execute at least min(requested, displayed). One alphabet is explored a second time under the clock seam (the harness answers clock_gettime: a virtual clock jumping 1.5 s at every reading), so that time-driven behaviour is part of every history.",
+   text="Every match letter in every state reachable in SC-zero (zero displays, zero replenish amounts, fully hidden reserve, amend to 0), SC-types, SC-wide and SC-bulk (70-order books, long runs of stale tickets), plus a draining match from every state, must return within a step budget counted by the hook, leave no displayed quantity if something remains, and execute at least min(requested, displayed). One alphabet is explored a second time under the clock seam (the harness answers clock_gettime: a virtual clock jumping 1.5 s at every reading), so that time-driven behaviour is part of every history. One alphabet is also explored with the taker carrying the id of resting order #1 (the taker id is only a label).",
    note="non-termination detected by a budget of 5*10^3 hooked shared-memory steps per call (a legitimate sweep over 70 orders needs about 10^3)",
    tech="explicit-state BFS on the implementation with a per-call step budget (hook as step counter)"),
  "C07": dict(engine="seqmc", cat="model_checking", ref="5 (C07)",
-   text="All five update kinds for present and absent ids, equal and different prices, over all templates, in every reachable state: return value and post-state are compared with the reference model and with model-independent predicates against the pre-state listing; every history is executed twice, quietly and with the full read battery after every operation, and both runs must agree (purity). One alphabet is explored a second time under the clock seam (the harness answers clock_gettime: a virtual clock jumping 1.5 s at every reading), so that time-driven behaviour is part of every history.",
+   text="All five update kinds for present and absent ids, equal and different prices, over all templates, in every reachable state: return value and post-state are compared with the reference model and with model-independent predicates against the pre-state listing; every history is executed twice, quietly and with the full read battery after every operation, and both runs must agree (purity). One alphabet is explored a second time under the clock seam (the harness answers clock_gettime: a virtual clock jumping 1.5 s at every reading), so that time-driven behaviour is part of every history. One alphabet is also explored with the taker carrying the id of resting order #1 (the taker id is only a label). Long and churn sweeps (single calls visiting 7*10^4 .. 1.2*10^6 makers; a level amended 70 000 times in front of live orders) are executed directly and checked with this property's predicates.",
    note="amend of TrailingStop/Pegged/MarketToLimit/Reserve is specified as a no-op (pinned by the repository's tests)",
    tech="explicit-state BFS on the implementation, twin execution with read-only calls interleaved"),
  "C10": dict(engine="seqmc", cat="model_checking", ref="5 (C10)",
-   text="In every reachable state (after fills, replenishments, amends) each of the seven rebuild paths is executed for every permutation of the pre-sort listing (ties), and each constructor is fed aggregate fields that disagree with the orders; rebuilt content, derived aggregates and the timestamp-sorted duplicate-free listing are checked. One alphabet is explored a second time under the clock seam (the harness answers clock_gettime: a virtual clock jumping 1.5 s at every reading), so that time-driven behaviour is part of every history.",
+   text="In every reachable state (after fills, replenishments, amends) each of the seven rebuild paths is executed for every permutation of the pre-sort listing (ties), and each constructor is fed aggregate fields that disagree with the orders; rebuilt content, derived aggregates and the timestamp-sorted duplicate-free listing are checked. One alphabet is explored a second time under the clock seam (the harness answers clock_gettime: a virtual clock jumping 1.5 s at every reading), so that time-driven behaviour is part of every history. One alphabet is also explored with the taker carrying the id of resting order #1 (the taker id is only a label). Long and churn sweeps (single calls visiting 7*10^4 .. 1.2*10^6 makers; a level amended 70 000 times in front of live orders) are executed directly and checked with this property's predicates. The JSON paths read the document directly, through a byte reader and through a serde_json::Value.",
    note="as C01",
    tech="explicit-state BFS on the implementation, per-state rebuild matrix (paths x tie permutations x foreign aggregates)"),
  "C11": dict(engine="seqmc", cat="model_checking", ref="5 (C11)",
-   text="In every state reachable in SC-order (ties, non-monotone timestamps, re-queued / replenished / amended orders) the level is restored through each of the four snapshot paths for every permutation of tied listing entries, and the original (replayed), the restored level and a fresh level re-adding the listed orders in listed order are driven through every continuation of length <= 2 over {match 1,2,4,1000; cancel #1..#3} plus a draining match. restored == re-added always; original == restored unless the original's queue order is not the strict timestamp order (KF3) or holds stale tickets (KF2).",
+   text="In every state reachable in SC-order (ties, non-monotone timestamps, re-queued / replenished / amended orders) the level is restored through each of the four snapshot paths for every permutation of tied listing entries, and the original (replayed), the restored level and a fresh level re-adding the listed orders in listed order are driven through every continuation of length <= 2 over {match 1,2,4,1000; cancel #1..#3} plus a draining match. restored == re-added always; original == restored unless the original's queue order is not the strict timestamp order (KF3) or holds stale tickets (KF2). One alphabet is also explored with the taker carrying the id of resting order #1 (the taker id is only a label). Long and churn sweeps (single calls visiting 7*10^4 .. 1.2*10^6 makers; a level amended 70 000 times in front of live orders) are executed directly and checked with this property's predicates. Further alphabets: SC-bulk, SC-realts (timestamps in seconds, milli-, micro- and nanoseconds), SC-reuse to depth 8 (thorough 12).",
    note="differential on the real code only; classification uses the hook's ticket mirror; known findings listed in KNOWN_FINDINGS.txt",
    tech="explicit-state BFS on the implementation, three-way differential (original / restored / re-added) over all continuations"),
  "C19": dict(engine="seqmc", cat="model_checking", ref="5 (C19)",
-   text="All sequences over push / pop / remove / find / len / is_empty / to_vec on a real OrderQueue (3 ids, re-push after removal allowed) up to the reported depth against a FIFO-with-removal model (result, content, len, is_empty, pop order of a final drain); text / JSON / from_vec / From<Vec> forms rebuilt in every new state; all lists of <= 3 orders in every permutation through the four constructors. The stale-ticket deviation is the open known finding KF2.",
+   text="All sequences over push / pop / remove / find / len / is_empty / to_vec on a real OrderQueue (3 ids, re-push after removal allowed) up to the reported depth against a FIFO-with-removal model (result, content, len, is_empty, pop order of a final drain); text / JSON / from_vec / From<Vec> forms rebuilt in every new state; all lists of <= 3 orders in every permutation through the four constructors. The stale-ticket deviation is the open known finding KF2. Five long histories (30 000 - 131 072 removals / re-pushes in a row, around 2^16 and 2^17) are executed on the real queue and on the model.",
    note="3 ids; known finding KF2 listed in KNOWN_FINDINGS.txt",
    tech="explicit-state BFS on the real OrderQueue vs FIFO reference model with a known-deviation variant"),
  "C03": dict(engine="schedmc", cat="model_checking", ref="5 (C03), 3.3",
@@ -62,7 +62,7 @@ CHECKS = {
    note="SC interleavings; uuid crate trusted for v5",
    tech="stateless model checking under a controlled scheduler (unbounded DFS for the generator programs)"),
  "C05": dict(engine="gridmc", cat="exploration", ref="5 (C05), 3.4",
-   text="The full Cartesian product of the ten-dimensional input space on a grid of small values and 64-bit boundary values (about 4*10^5 (order, incoming) pairs, all seven types) is evaluated through OrderType::match_against and each result is checked against the statement's predicates (consumed, remaining, conservation of the total, hidden_reduced, the iceberg tranche as an inequality, reserve and plain types exactly, identity fields and parameters unchanged). Exhaustive on the grid; the same rules are observed through the level by engine S.",
+   text="The full Cartesian product of the ten-dimensional input space on a grid of small values and 64-bit boundary values (about 4*10^5 (order, incoming) pairs, all seven types) is evaluated through OrderType::match_against and each result is checked against the statement's predicates (consumed, remaining, conservation of the total, hidden_reduced, the iceberg tranche as an inequality, reserve and plain types exactly, identity fields and parameters unchanged). Exhaustive on the grid; the same rules are observed through the level by engine S. Long and churn sweeps (single calls visiting 7*10^4 .. 1.2*10^6 makers; a level amended 70 000 times in front of live orders) are executed directly and checked with this property's predicates.",
    note="grid points only; the iceberg tranche is checked as the inequality the property states",
    tech="bounded-exhaustive enumeration of the input grid against the specification predicates"),
  "C09": dict(engine="gridmc", cat="fault_enumeration", ref="5 (C09), 3.4",
@@ -70,11 +70,11 @@ CHECKS = {
    note="no assumption about SHA-256: every mutated input is executed; seeds as listed in the evidence",
    tech="exhaustive single- and double-fault enumeration (torn writes, byte edits, structural edits) on the serialized package, executed on the implementation"),
  "C16": dict(engine="gridmc", cat="exploration", ref="5 (C16), 3.4",
-   text="parse(print(v)) == v for every value of a boundary grid per codec type (about 8*10^5 values: ids in both formats incl. nil / all-ones / max ULID, prices, quantities, timestamps in {0,1,2^53+1,MAX-1,MAX}, i64 limits, seven time-in-force values incl. GTD 0 and MAX, all type parameters, lists of 0..3 elements, levels and queues of 0..3 orders).",
+   text="parse(print(v)) == v for every value of a boundary grid per codec type (about 8*10^5 values: ids in both formats incl. nil / all-ones / max ULID, prices, quantities, timestamps in {0,1,2^53+1,MAX-1,MAX}, i64 limits, seven time-in-force values incl. GTD 0 and MAX, all type parameters, lists of 0..3 elements, levels and queues of 0..3 orders). Plus an engine-C stage: a reader thread prints the level as text while one or two writer threads run (every interleaving within the preemption bound) and the library's parser must accept the result.",
    note="grid points only",
    tech="bounded-exhaustive enumeration of the value grid, round-trip equality"),
  "C17": dict(engine="gridmc", cat="exploration", ref="5 (C17), 3.4",
-   text="from_json(to_json(v)) == v for the same grid as C16 for every serde-enabled type; snapshot packages must still validate after the trip (serde and to_json/from_json); the serde-enabled id generator must continue its sequence.",
+   text="from_json(to_json(v)) == v for the same grid as C16 for every serde-enabled type; snapshot packages must still validate after the trip (serde and to_json/from_json); the serde-enabled id generator must continue its sequence. Three levels whose running totals wrapped past 2^64 are part of the grid. Plus an engine-C stage: a reader thread serializes the level to JSON while one or two writer threads run (every interleaving within the preemption bound) and deserialization must accept the result.",
    note="grid points only",
    tech="bounded-exhaustive enumeration of the value grid, JSON round-trip equality"),
  "C18": dict(engine="gridmc", cat="exploration", ref="5 (C18), 3.4",
@@ -82,7 +82,7 @@ CHECKS = {
    note="edits of valid encodings and short strings, not all Unicode strings; the sweep runs in a child process, an abort (stack overflow, allocation failure) is pinned to its input and reported as a violation",
    tech="bounded-exhaustive enumeration of single / double edits at every offset, executed on the implementation under a panic and hang guard"),
  "C15": dict(engine="seqmc", cat="model_checking", ref="5 (C15)",
-   text="Sequential half: all histories with positive quantities, statistics counters in the state key; after every transition the four counters must equal the events derived from the implementation's own return values. Concurrent half: 2-3 thread programs with the eight statistics atomics as scheduling points, every interleaving within the bound, counters at quiescence vs the events the threads observed; the statistics object on its own from 2-3 threads (all interleavings, plus 'victim' programs where one thread is preempted at every step against up to 24 complete calls of the other); long sweeps (one call with 7*10^4..1.2*10^6 fills). One sequential alphabet is explored again under the clock seam (virtual clock jumping 1.5 s per reading).",
+   text="Sequential half: all histories with positive quantities, statistics counters in the state key; after every transition the four counters must equal the events derived from the implementation's own return values. Concurrent half: 2-3 thread programs with the eight statistics atomics as scheduling points, every interleaving within the bound, counters at quiescence vs the events the threads observed; the statistics object on its own from 2-3 threads (all interleavings, plus 'victim' programs where one thread is preempted at every step against up to 24 complete calls of the other); long sweeps (one call with 7*10^4..1.2*10^6 fills). One sequential alphabet is explored again under the clock seam (virtual clock jumping 1.5 s per reading). One alphabet is also explored with the taker carrying the id of resting order #1 (the taker id is only a label). Also: SC-reuse with rebuild letters (events after a rebuild are counted on top of what the rebuilt level reports) and SC-realts (stamps in the future of a millisecond clock).",
    note="orders carry the level's price (the property's premise); SC interleavings",
    tech="explicit-state BFS on the implementation + stateless model checking under a controlled scheduler, counters vs observed events"),
 }
